@@ -55,8 +55,15 @@ class C10(C03):
                 ins.append({"s": s, "b": rng.choice(c04mod.BEHS), "n": b(rng.choice(VARS)), "v": b(rng.choice([b"/opt/y", b"", b":"]))})
             steps = [{"op": "write", "ins": ins}, {"op": "read", "probes": self.probes10()}, {"op": "read_write"},
                      {"op": "read_write"}, {"op": "read", "probes": self.probes10()[3:9]}]
-            cases.append({"init": self.base_tree(extra), "dir": LAYER, "steps": steps, "assign": list(assign),
-                          "dot_dir": len(cases) % 4 == 1})
+            case = {"init": self.base_tree(extra), "dir": LAYER, "steps": steps, "assign": list(assign),
+                    "dot_dir": len(cases) % 4 == 1}
+            if len(cases) % 4 == 3:
+                # a layer directory whose name is not UTF-8 (file names are bytes): the implicit entries carry it unchanged
+                odd = list(b"lay\xe9r")
+                ren = lambda p: [odd if comp == LAYER[-1] else comp for comp in p]
+                case["init"] = [dict(e, p=ren(e["p"])) for e in case["init"]]
+                case["dir"] = ren(LAYER)
+            cases.append(case)
         if tier == "thorough":
             for _ in range(1500):
                 assign = [rng.choice(KINDS) for _ in range(4)]
